@@ -40,6 +40,105 @@ def fallback(smt2: str) -> tuple[str, str]:
     return "unknown", ""
 
 
+_KEEP: list = []
+
+
+def _uninterp_consts(fs: list) -> dict:
+    seen: set[int] = set()
+    out: dict[str, Any] = {}
+    stack = list(fs)
+    while stack:
+        x = stack.pop()
+        i = x.get_id()
+        if i in seen:
+            continue
+        seen.add(i)
+        if z3.is_quantifier(x):
+            stack.append(x.body())
+            continue
+        if z3.is_app(x):
+            if x.num_args() == 0 and x.decl().kind() == z3.Z3_OP_UNINTERPRETED:
+                out[str(x)] = x
+            stack.extend(x.children())
+    return out
+
+
+class CtxModel:
+    """A model living in its own z3 context (a solver interrupted by a timeout can leave the shared default context in
+    a state where later models come back incomplete -- seen with z3 5.1.0); eval translates in and out."""
+
+    def __init__(self, model: Any, ctx: Any, solver: Any) -> None:
+        self.model, self.ctx, self.solver = model, ctx, solver
+        self.main = z3.main_ctx()
+
+    def eval(self, e: Any, model_completion: bool = True) -> Any:
+        r = self.model.eval(e.translate(self.ctx), model_completion=model_completion)
+        return r.translate(self.main)
+
+    def string_values(self) -> set:
+        out: set[str] = set()
+        for d in self.model.decls():
+            v = self.model[d]
+            if d.arity() == 0:
+                if z3.is_string_value(v):
+                    out.add(v.as_string())
+            elif isinstance(v, z3.FuncInterp):
+                for i in range(v.num_entries()):
+                    en = v.entry(i)
+                    for j in range(en.num_args()):
+                        a = en.arg_value(j)
+                        if z3.is_string_value(a):
+                            out.add(a.as_string())
+        return out
+
+    def __str__(self) -> str:
+        return str(self.model)
+
+
+def small_scope(assertions: list, timeout_ms: int = 4000, scopes: tuple = (1, 2, 3, 4)) -> Any:
+    """Counter-model search in a small scope: every uninterpreted array is restricted to an explicit finite table over
+    N shared keys (strings) / the indices 0..N+1 (ints), boolean arrays default to False (finite sets).  The restriction
+    only *adds* constraints, so a model found here is a genuine model of the original query; it is also small, which is
+    what the native replay wants.  Every model is validated against the ground conjuncts before it is returned.
+    Returns a CtxModel or None."""
+    cs = _uninterp_consts(assertions)
+    arrays = [(n, c) for n, c in sorted(cs.items()) if z3.is_array(c)]
+    ctx = z3.Context()
+    tr = [a.translate(ctx) for a in assertions]
+    names = list(cs)
+    for n in (scopes if arrays else (0,)):
+        for bool_default in ((False, None) if arrays else (None,)):
+            s = z3.Solver(ctx=ctx)
+            s.set("timeout", timeout_ms)
+            s.add(*tr)
+            skeys = [z3.String(f"ss_key{i}", ctx) for i in range(n)]
+            for name, c0 in arrays:
+                c = c0.translate(ctx)
+                dom, rng = c.sort().domain(), c.sort().range()
+                if dom == z3.StringSort(ctx):
+                    idx = skeys
+                elif dom == z3.IntSort(ctx):
+                    idx = [z3.IntVal(i, ctx) for i in range(0, n + 2)]
+                else:
+                    continue
+                if rng == z3.BoolSort(ctx) and bool_default is not None:
+                    a = z3.K(dom, z3.BoolVal(bool_default, ctx))
+                else:
+                    a = z3.K(dom, z3.Const(f"ss_d_{name}", rng))
+                for j, ix in enumerate(idx):
+                    a = z3.Store(a, ix, z3.Const(f"ss_v_{name}_{j}", rng))
+                s.add(c == a)
+            if s.check() == z3.sat:
+                m = s.model()
+                have = {str(d) for d in m.decls()}
+                if any(nm not in have for nm in names):
+                    continue      # incomplete model: do not trust it
+                if any(z3.is_false(m.eval(a, model_completion=True)) for a in tr):
+                    continue      # model validation failed
+                return CtxModel(m, ctx, s)
+    return None
+
+
 def discharge(ob: Obligation, want_model: bool = True, second_opinion: bool = False) -> None:
     if ob.status != "open":
         return
@@ -65,8 +164,20 @@ def discharge(ob: Obligation, want_model: bool = True, second_opinion: bool = Fa
             ob.detail = "sat" if r == z3.sat else "not shown unsat"
         return
     s.add(z3.Not(ob.goal))
+    s.set("timeout", min(3000, Z3_TIMEOUT_MS))
     r = s.check()
     ob.backend = "z3-5.1.0"
+    if r != z3.unsat:
+        m = small_scope(list(s.assertions()))
+        if m is not None:
+            ob.status = "refuted"
+            ob.backend = "z3-5.1.0 (small-scope model search)"
+            ob.model = m
+            ob.ms = (time.time() - t0) * 1000
+            return
+    if r == z3.unknown:
+        s.set("timeout", Z3_TIMEOUT_MS)
+        r = s.check()
     if r == z3.unknown:
         v, be = fallback(s.to_smt2())
         if v == "unsat":
@@ -89,8 +200,7 @@ def discharge(ob: Obligation, want_model: bool = True, second_opinion: bool = Fa
                 ob.detail = f"solver disagreement: z3 unsat, {be} sat"
     elif r == z3.sat:
         ob.status = "refuted"
-        if want_model:
-            ob.model = s.model()
+        ob.detail = "sat, but no validated small model (counter-model not replayable)"
     else:
         ob.status = "unknown"
         ob.detail = s.reason_unknown()
